@@ -621,6 +621,19 @@ pub fn run(ctx: &Ctx) {
     );
 
     ctx.enumerate(
+        "metadata-called-name",
+        14,
+        true,
+        |i, acc| {
+            acc.cell("name-metadata", true);
+            acc.sample("name-metadata", || "Rule::new(\"a\", {name: \"b\"}, ..) then Rule::new(\"b\", {}, ..) and similar sequences".to_string());
+            check_name_metadata(i as usize)
+        },
+        |i| serde_json::json!({"name_metadata": i}),
+        "name-metadata",
+    );
+
+    ctx.enumerate(
         "long-histories",
         long.len() as u64,
         true,
@@ -669,7 +682,83 @@ pub fn run(ctx: &Ctx) {
     );
 }
 
+/// Rules built in code whose *metadata* has entries called `name` / `description` / like another rule: a rule's name is
+/// the one it was constructed with; metadata never takes part in the duplicate check nor in what outcomes report.
+fn check_name_metadata(k: usize) -> Verdict {
+    let meta = |pairs: &[(&str, Value)]| pairs.iter().map(|(k, v)| (k.to_string(), v.clone())).collect::<BTreeMap<String, Value>>();
+    let st = |s: &str| Value::String(s.to_string());
+    // (constructed name, metadata) in the order they are added; expected: accepted iff the constructed name is new
+    let seqs: Vec<Vec<(&str, BTreeMap<String, Value>)>> = vec![
+        vec![("a", meta(&[("name", st("b"))])), ("b", meta(&[]))],
+        vec![("b", meta(&[])), ("a", meta(&[("name", st("b"))]))],
+        vec![("r1", meta(&[("name", st("x"))])), ("r1", meta(&[("name", st("y"))]))],
+        vec![("r1", meta(&[("name", st("x"))])), ("r2", meta(&[("name", st("x"))]))],
+        vec![("a", meta(&[("name", Value::Int(1)), ("description", st("a"))])), ("1", meta(&[("name", st("a"))])), ("a", meta(&[]))],
+        vec![("", meta(&[("name", st(""))])), ("", meta(&[]))],
+        vec![("a", meta(&[("Name", st("b")), ("rule", st("b")), ("id", st("b"))])), ("b", meta(&[("name", st("a"))])), ("c", meta(&[("name", st("c"))]))],
+    ];
+    let seq = &seqs[k % seqs.len()];
+    let batch = k / seqs.len() == 1;
+    let fail = |what: String| Err(Issue::new("names:name-metadata", format!("rules {:?} added {}: {what}", seq.iter().map(|(n, m)| format!("Rule::new({n:?}, {m:?})")).collect::<Vec<_>>(), if batch { "through with_rules" } else { "one by one" })));
+    let mk = |n: &str, m: &BTreeMap<String, Value>| Rule::new(n, m.clone(), Expr::value(n.to_string()));
+    for (n, m) in seq {
+        let r = mk(n, m);
+        if r.name() != *n {
+            return fail(format!("Rule::new({n:?}, ..).name() is {:?}", r.name()));
+        }
+    }
+    let mut seen: Vec<&str> = vec![];
+    let mut accepted: Vec<&str> = vec![];
+    let built = if batch {
+        let expect_ok = seq.iter().enumerate().all(|(i, (n, _))| !seq[..i].iter().any(|(p, _)| p == n));
+        match catch(|| ruleset().with_rules(seq.iter().map(|(n, m)| mk(n, m)).collect::<Vec<_>>())) {
+            Err(p) => return fail(format!("with_rules panicked: {p}")),
+            Ok(Ok(b)) if expect_ok => {
+                accepted = seq.iter().map(|(n, _)| *n).collect();
+                b.build()
+            }
+            Ok(Err(_)) if !expect_ok => return Ok(()),
+            Ok(other) => return fail(format!("with_rules {} although the constructed names are {}", if other.is_ok() { "accepted them" } else { "refused them" }, if expect_ok { "distinct" } else { "not distinct" })),
+        }
+    } else {
+        let mut b = ruleset();
+        for (n, m) in seq {
+            let dup = seen.contains(n);
+            match catch(move || b.with_rule(mk(n, m))) {
+                Err(p) => return fail(format!("with_rule panicked: {p}")),
+                Ok(Ok(nb)) if !dup => {
+                    b = nb;
+                    accepted.push(n);
+                }
+                Ok(Err(e)) if dup => {
+                    // a refused rule consumes the builder: start again with what was accepted
+                    let _ = e;
+                    b = ruleset();
+                    for a in &accepted {
+                        let (an, am) = seq.iter().find(|(x, _)| x == a).expect("accepted before");
+                        b = b.with_rule(mk(an, am)).expect("accepted before");
+                    }
+                }
+                Ok(other) => return fail(format!("the rule constructed as {n:?} was {} although {}", if other.is_ok() { "accepted" } else { "refused" }, if dup { "a rule of that name was added before" } else { "no rule of that name was added before" })),
+            }
+            seen.push(n);
+        }
+        b.build()
+    };
+    let out = catch(|| block_on(built.evaluate_value(&Value::None)).expect("evaluate_value").into_iter().map(|o| (o.rule.name().to_string(), o.value)).collect::<Vec<_>>())
+        .map_err(|p| Issue::new("names:name-metadata", format!("evaluate_value panicked: {p}")))?;
+    let names: Vec<String> = out.iter().map(|(n, _)| n.clone()).collect();
+    let values_ok = out.iter().zip(&accepted).all(|((_, v), a)| matches!(v, Ok(Value::String(s)) if s == a));
+    if names != accepted.iter().map(|s| s.to_string()).collect::<Vec<_>>() || !values_ok {
+        return fail(format!("the outcomes are reported for {names:?} with values {:?}, the accepted rules are {accepted:?}", out.iter().map(|(_, v)| v.as_ref().map(show_value).map_err(|e| e.to_string())).collect::<Vec<_>>()));
+    }
+    Ok(())
+}
+
 pub fn replay(j: &serde_json::Value) -> Option<Verdict> {
+    if let Some(k) = j.get("name_metadata").and_then(|k| k.as_u64()) {
+        return Some(check_name_metadata(k as usize));
+    }
     if let Some(i) = j.get("redefined_symbols").and_then(|i| i.as_u64()) {
         return super::c12::redefined_symbol_cases().get(i as usize).map(|(e, c)| super::c12::check_redefined(e, c).map_err(|i| Issue::new(i.sig.replace("history:", "names:"), i.msg)));
     }
